@@ -13,7 +13,8 @@ Sub-checks
 
 All oracles are written from the definition (exact rational reference values, dyadic positions), none calls the
 library code it judges.  Coordinates are dyadic rationals with short mantissas, so grid points, step widths and the
-normalised coordinates t=(x-a)/(b-a) are exact in floating point.
+normalised coordinates t=(x-a)/(b-a) are exact in floating point.  The same grid is handed over in different container
+forms and coordinate element types (float, int where whole, np.int64/np.int32, np.float32), see grid_arg().
 """
 import contextlib
 import io
@@ -28,13 +29,22 @@ PROPERTY = "C11"
 RULE = ("A case is a dyadic refinement tree on [a, a+H] (a = k/8, H = odd*2^e: all coordinates exactly representable): "
         "a complete tree of depth 0..3 followed by 0..20 (thorough 30) random leaf splits (an interval between two "
         "neighbouring points is halved, the new point gets level max(neighbour levels)+1); for the balanced classes a "
-        "leaf *node* receives both children. In every sub 8 of 17 draws put the interval into unusual units: length "
+        "leaf *node* receives both children. In every sub 8 of 21 draws put the interval into unusual units: length "
         "(and offset, or offset 0, or an O(1) offset with a scaled length) multiplied by 2^-40, 2^-30, ~1e-9, ~1e-7, "
         "~1e-6, ~1e-3, ~1e3 or 2^20 (the decimal ones rounded to an 11-bit mantissa), and about 1 in 7 trees is a "
         "one-sided chain of 20..31 levels (towards a, towards b or zig-zag) with <= 36 points; class counters "
-        "domain-scale=*, offset=*, max-level>=27. Every tolerance is relative to the interval length. Every sub passes "
+        "domain-scale=*, offset=*, max-level>=27. 4 of 21 draws count the interval in cells of the finest (or 2nd/3rd finest) "
+        "level (whole-number offset, length odd*2^(depth-j), j in 0,0,0,1,2; class domain-scale=whole-numbers), so that all or "
+        "most grid points are whole numbers. Every tolerance is relative to the interval length. Every sub passes "
         "grid and level list in a drawn container form (list / tuple / ndarray / list of numpy scalars; class arg-form=*) "
-        "and in half of the draws the caller goes on using ITS OWN containers after set_grid/init_tree (insert the next "
+        "and the coordinates in a drawn element type (4 of 9 float; 3 of 9 'int': every whole-number coordinate is a Python "
+        "int resp. np.int64, the others stay floats, an ndarray is int64 only if all are whole; 1 of 9 the same with "
+        "np.int32; 1 of 9 np.float32 scalars / float32 ndarray if every coordinate is a float32 number of moderate size, "
+        "else float; classes coord-elem=*, coord-type=<container>[<element types>], coords=all-integer-typed / "
+        "mixed-int-float, container>=2-slices-all-integer-typed / -mixed-int-float = a grouped container whose points "
+        "were all / partly handed over integer-typed); weights, sums, moments and integrate() are judged exactly as for "
+        "floats and compared with the weights of the same grid spelt as a plain list of floats. "
+        "In half of the draws the caller goes on using ITS OWN containers after set_grid/init_tree (insert the next "
         "refinement point, refill with another grid, clear, reverse; before the first or between two get_weights calls; "
         "class caller-modified=*): the answers must be those of the grid given to set_grid (reference: an object that "
         "received private copies) and the library must not change the caller's containers. Every case is run through all 3 slice groupings x 2 slice versions x 2 "
@@ -60,6 +70,18 @@ ASSUMPTIONS = [
     "LAGRANGE_* containers and ROMBERG_DEFAULT_CONST_SUBTRACTION slices are out of scope (statement)",
     "argument forms: grid as list, tuple, ndarray or list of np.float64; levels as list, tuple or list of np.int64. An "
     "ndarray level list is outside the accepted domain (every entry point calls grid_levels[...].index(min(...)))",
+    "coordinate element types: the library neither converts nor rejects the coordinate objects it is given (slices keep "
+    "the caller's own objects as left/right point, step widths are (b-a)/2**j with true division), the repository tests "
+    "write whole-number coordinates as ints (test_ExtrapolationGrid.py: grid = [1, 1.5, 2, 2.5, 3], [1, 2, 2.25, 2.5, 3]); "
+    "observed on the unchanged tree (7092 configurations x 33 spellings): Python int / np.int32 / np.int64 (lists, tuples, "
+    "integer ndarrays, mixed with floats) give float weights within 1.5e-16*H of the float spelling, so they are judged with "
+    "the float64 tolerance; np.int32 only for |x| < 2^30 (b-a must not overflow), otherwise np.int64",
+    "float32 coordinates: the library then computes step widths and weights in single precision (weights come back as "
+    "np.float32). The statement's 'exactly' is read as 'up to rounding of the caller's number type': tolerance TOL32=1e-4 "
+    "relative (rounding observed on the unchanged tree <= 7e-7 for default containers over 3000 trees x 24 configurations; "
+    "a Simpson-cause deviation below 1e-4 is then not reported). float32 is used only if it spells the same grid (every "
+    "coordinate is a float32 number) and 2^-24 <= step, |x| <= 2^24 (h^3 in the Romberg coefficients stays inside the "
+    "float32 range); otherwise the case falls back to float (class coord-elem-fallback=float32->float)",
     "GlobalRombergGrid / GlobalBalancedRombergGrid: after the caller changed its containers only the weights are "
     "compared (coordinate storage of GlobalGrid belongs to other properties)",
     "unusual units: scales ~1e-9 .. ~1e3 are rounded to an 11-bit mantissa (e.g. 1e-9 -> 1.00044e-9); a scale with a "
@@ -1330,6 +1352,22 @@ def selftest():
     assert balanced_tree_from_splits([0, 0]) == [F(0), F(1, 8), F(1, 4), F(3, 8), F(1, 2), F(3, 4), F(1)]
     assert dyadic_level(F(1, 3)) == -1
     assert equal_width_runs(complete_ts(2)) == [4] and equal_width_runs(ts) == [1, 2, 1]
+    # coordinate spellings: same values, the intended element types
+    import numpy as np
+    vals = [1.0, 1.5, 2.0, 2.5, 3.0]
+    g = grid_arg(vals, ["list", "list", "int"])
+    assert g == vals and [type(v) for v in g] == [int, float, int, float, int] and coord_type_label(g) == "list[float,int]"
+    g = grid_arg([0.0, 1.0, 2.0, 4.0, 8.0], ["ndarray", "list", "int"])
+    assert g.dtype == np.int64 and coord_type_label(g) == "ndarray[int64]" and plain(g) == [0, 1, 2, 4, 8]
+    assert grid_arg(vals, ["ndarray", "list", "int"]).dtype == np.float64
+    g = grid_arg(vals, ["list-np.float64", "list", "int32"])
+    assert [type(v) for v in g] == [np.int32, np.float64, np.int32, np.float64, np.int32] and plain(g) == vals
+    g = grid_arg(vals, ["tuple", "list", "float32"])
+    assert isinstance(g, tuple) and {type(v) for v in g} == {np.float32} and plain(g) == vals
+    assert [type(v) for v in grid_arg(vals, ["list", "list", "float"])] == [float] * 5
+    assert float32_applicable([vals]) and not float32_applicable([[0.0, 2.0 ** -30, 2.0 ** -29]]) and not float32_applicable([[1.0, 1.0 + 2.0 ** -30, 1.0 + 2.0 ** -29]])
+    assert effective_elem("float32", [[0.0, 2.0 ** -30, 2.0 ** -29]]) == "float" and effective_elem("int32", [[0.0, 2.0 ** 31]]) == "int"
+    assert CallerArgs([0.0, 1.0, 1.5, 2.0], [0, 2, 3, 1], ["list", "list", "int"]).ints0 == [True, True, False, True]
     # closed forms: trapezoid on [0,1] is exact to degree 1, Simpson (= Romberg depth 1) to degree 3, not 4
     H = 2.0
     trap = [1.0, 1.0]
